@@ -6,7 +6,6 @@ use proptest::prelude::*;
 use serde::{Deserialize, Serialize};
 use serde_json::json;
 
-use super::c07::show_samples;
 use super::common::*;
 use super::PropDef;
 use crate::cli::{self, run_ska};
